@@ -105,6 +105,9 @@ func (eng *Engine) applySweeps() error {
 					if sw.AllocBuf && ct.AllocBound == 0 && ct.AllocExpr == nil {
 						ct.AllocBuf = true
 					}
+					if sw.Frame {
+						ct.SweepFrame = true
+					}
 					continue
 				}
 				if f != root && eng.inlinable(f) {
@@ -119,7 +122,7 @@ func (eng *Engine) applySweeps() error {
 				}
 				n++
 				ct := &Contract{ID: fmt.Sprintf("a%d", n), PkgDir: d, PkgPath: f.Pkg.Pkg.Path(), Key: funcKey(f), Props: append([]string{}, sw.Props...),
-					Loops: map[int]*LoopSpec{}, Fn: f, Auto: true, AllocBuf: sw.AllocBuf}
+					Loops: map[int]*LoopSpec{}, Fn: f, Auto: true, AllocBuf: sw.AllocBuf, SweepFrame: sw.Frame}
 				eng.contracts[f] = ct
 				eng.byKey[ct.FullKey()] = ct
 				tps := eng.specs[d]
